@@ -1,6 +1,7 @@
 import SJ.Properties.C12
 import SJ.Proofs.SourceLevelA
 import SJ.Proofs.SourceLevelD
+import SJ.Proofs.SourceLevelE
 set_option linter.unusedVariables false
 /-
 C12 — source level. The theorems of Properties/C12.lean composed with the source ties of DESIGN §6.3: each statement
@@ -221,5 +222,114 @@ theorem C12_source_asString (pj : PJ) (p e : Nat) (es : LVals) (hok : Ok pj (.ar
       ∃ st, runFun goFuns goArray_AsString F ⟨arrStore pj { lim := e, off := p + 1 } extra, pj.tape⟩ =
           .ret st [.keys [], .bool true] :=
   SJ.SourceLevelD.C12_source_asString pj p e es hok hb extra F hF
+
+open SJ.Generated SJ.GoSem SJ.GoIter SJ.GoObject SJ.Layout SJ.GoWrappers SJ.GoElems SJ.SourceLevelE SJ.Tables SJ.WalkLayout SJ.Lookup in
+/-- **`Object.Parse` at source level** (`C12_parse` ∘ `GoElems.parse_tie` + `index_lookup`).  On a tape that holds the located
+    object `.obj p e ms` (gaps of NOP entries before, between and after members; each member's value directly after its key,
+    `TightTop`, the hypothesis of `C12_parse`), running `o.Parse(dst)` of `parsed_object.go` (as printed from /repo) on the
+    object's view (`off = p+1`, `lim = e`, what `Iter.Object` returns) from ANY store `e0` that binds the receiver, the hidden
+    flag `dst == nil` (either value: a nil or a recycled destination) and the two shared buffers — the five destination
+    variables may hold anything, or be unbound:
+    * returns `(dst, nil)` with `dst` non-nil; the tape is untouched; the flag is cleared (a fresh `Elements` was allocated
+      when `dst` was nil);
+    * `dst.Elements` holds exactly one element per member, in tape order, duplicates included (`membersOf ms`): its `Name` is
+      the key's bytes, its `Type` the type of the value's tag, its `Iter` the cursor restricted to the words of the value and
+      standing on it (`elemIter`; flattened to five integers `iterInts`) — nothing of a recycled destination survives;
+    * `dst.Index` is a map in which a key is present iff some member has it, and then maps to the position of the LAST
+      member with that key (`assocGet` is Go's `idx, ok := Index[key]` on the insertion-ordered association `.mapSet` builds);
+    * the receiver stands on the closing brace afterwards (`off = e - 1`);
+    * every recorded cursor stands on an `Ok` node of the document (`OnNode`), so the accessors' source-level theorems apply.
+    Discharged: `v.lim ≤ len(tape)` (the closing brace of an `Ok` object is a word of the tape), the model fuel, the tie's
+    representation functions (`encElems`/`indexOf` are written out).  Kept: `TightTop ms` (of the property: `NextElementBytes`
+    does not skip NOPs between a key and its value, `Lookup.gap_key_value_discrepancy`), `BufOK pj` (buffer lengths are Go
+    `int`s), the interpreter's loop budget `e - p + 4`. -/
+theorem C12_source_parse (pj : PJ) (p e : Nat) (ms : LMems) (hok : Ok pj (.obj p e ms)) (ht : TightTop ms) (hb : BufOK pj)
+    (b : Bool) (e0 : Env) (hv : viewAt e0 "o" = some { lim := e, off := p + 1 })
+    (hN : e0.get "dst==nil" = some (.bool b)) (hS : e0.get "Strings.B" = some (.bytes pj.strings))
+    (hM : e0.get "Message" = some (.bytes pj.msg)) (F : Nat) (hF : e - p + 4 ≤ F) :
+    ∃ s, runFun goFuns goObject_Parse F ⟨e0, pj.tape⟩ = .ret s [.bool true, .bool false] ∧ s.tape = pj.tape ∧
+      s.env.get "dst==nil" = some (.bool false) ∧
+      viewAt s.env "o" = some { lim := e, off := e - 1 } ∧
+      s.env.get "dst.Elements.Name" = some (.keys ((membersOf ms).map (·.1))) ∧
+      s.env.get "dst.Elements.Type" =
+        some (.bytes ((membersOf ms).map fun kv => tagToTypeSpec (tagOfL kv.2)).toArray) ∧
+      s.env.get "dst.Elements.Iter" = some (.ints ((membersOf ms).flatMap fun kv => iterInts (elemIter pj kv.2))) ∧
+      (∃ ik iv, s.env.get "dst.Index.k" = some (.keys ik) ∧ s.env.get "dst.Index.v" = some (.ints iv) ∧
+        ∀ k : Bytes,
+          (assocGet (ik, iv) k = none ↔ ∀ kv ∈ membersOf ms, kv.1 ≠ k) ∧
+          (∀ x, assocGet (ik, iv) k = some x → ∃ q : Nat, x = (q : Int)) ∧
+          ∀ q : Nat, assocGet (ik, iv) k = some (q : Int) ↔
+            ∃ h : q < (membersOf ms).length, ((membersOf ms)[q]).1 = k ∧
+              ∀ r (hr : r < (membersOf ms).length), q < r → ((membersOf ms)[r]).1 ≠ k) ∧
+      ∀ kv ∈ membersOf ms, Ok pj kv.2 ∧ OnNode pj kv.2 (elemIter pj kv.2) :=
+  SJ.SourceLevelE.C12_source_parse pj p e ms hok ht hb b e0 hv hN hS hM F hF
+
+open SJ.Generated SJ.GoSem SJ.GoIter SJ.GoObject SJ.Layout SJ.GoWrappers SJ.GoElems SJ.SourceLevelE SJ.Tables SJ.WalkLayout SJ.Lookup in
+/-- the same, said with the tie's representation: the five destination variables are `encElems`/`indexOf` of the members'
+    elements (`GoElems.DstIs`) — the form `C10_source_elements_marshal` consumes -/
+theorem C12_source_parse_dstIs (pj : PJ) (p e : Nat) (ms : LMems) (hok : Ok pj (.obj p e ms)) (ht : TightTop ms)
+    (hb : BufOK pj) (b : Bool) (e0 : Env) (hv : viewAt e0 "o" = some { lim := e, off := p + 1 })
+    (hN : e0.get "dst==nil" = some (.bool b)) (hS : e0.get "Strings.B" = some (.bytes pj.strings))
+    (hM : e0.get "Message" = some (.bytes pj.msg)) (F : Nat) (hF : e - p + 4 ≤ F) :
+    ∃ s, runFun goFuns goObject_Parse F ⟨e0, pj.tape⟩ = .ret s [.bool true, .bool false] ∧ s.tape = pj.tape ∧
+      DstIs s.env (memElems pj ms) :=
+  SJ.SourceLevelE.C12_source_parse_dstIs pj p e ms hok ht hb b e0 hv hN hS hM F hF
+
+open SJ.Generated SJ.GoSem SJ.GoIter SJ.GoObject SJ.Layout SJ.GoWrappers SJ.GoElems SJ.SourceLevelE SJ.Tables SJ.WalkLayout SJ.Lookup SJ.GoApi in
+/-- **One step of `Object.NextElement`, source level** (`GoApi.nextElement_sim`, the theorem behind the `NextElement` line of
+    `C12_api_follows_source` / the `NextElementBytes` line of `C12_object_walk_follows_source`, ∘ the member step of
+    `C12_parse`'s proof).  The tape holds, between `lo` and `hi`, the located members `(k, v) :: ms` of an object
+    (`OkMems`: NOP gaps before and between members) with `v` directly after its key (`v.pos = pk + 2`), and the receiver is
+    the view `{off = lo, lim}` with `hi < lim ≤ len(tape)` (the object's view, or what an earlier step left).  Running
+    `o.NextElement(dst)` of `parsed_object.go` (as printed from /repo) from ANY store binding the receiver, a complete `*dst`
+    (holding anything) and the two buffers returns the member's key bytes as `name`, the `Type` of the value's tag, and `nil`;
+    afterwards `*dst` is the cursor restricted to the words of `v` and standing on it (`elemIter`, `OnNode`), the receiver
+    stands right after `v` (`off = v.fin`) — so that the remaining members `ms` are again in front of it (`OkMems pj ms v.fin
+    hi`: the theorem applies again) — and tape and buffers are untouched.
+    Discharged: the model fuel.  Kept: `lim ≤ len(tape)` (a view of the tape), `BufOK pj` (Go `int` buffer lengths), the
+    key-value tightness of THIS member (of the property: `NextElementBytes` does not skip NOPs between key and value), the
+    interpreter's budget `lim - lo + 2`. -/
+theorem C12_source_nextElement (pj : PJ) (lim lo hi pk : Nat) (k : List UInt8) (v : LVal) (ms : LMems)
+    (hms : OkMems pj (.cons pk k v ms) lo hi) (hp : v.pos = pk + 2) (hlt : hi < lim) (hl : lim ≤ pj.tape.size)
+    (hb : BufOK pj) (d0 : Iter) (e0 : Env) (hv : viewAt e0 "o" = some { lim := lim, off := lo })
+    (hd : iterAt e0 "dst" = some d0) (hS : e0.get "Strings.B" = some (.bytes pj.strings))
+    (hM : e0.get "Message" = some (.bytes pj.msg)) (F : Nat) (hF : lim - lo + 2 ≤ F) :
+    ∃ s, runFun goFuns goObject_NextElement F ⟨e0, pj.tape⟩ =
+        .ret s [.bytes k.toArray, .u8 (tagToTypeSpec (tagOfL v)), .bool false] ∧
+      s.tape = pj.tape ∧ viewAt s.env "o" = some { lim := lim, off := v.fin } ∧
+      iterAt s.env "dst" = some (elemIter pj v) ∧
+      s.env.get "Strings.B" = some (.bytes pj.strings) ∧ s.env.get "Message" = some (.bytes pj.msg) ∧
+      Ok pj v ∧ OnNode pj v (elemIter pj v) ∧ OkMems pj ms v.fin hi :=
+  SJ.SourceLevelE.C12_source_nextElement pj lim lo hi pk k v ms hms hp hlt hl hb d0 e0 hv hd hS hM F hF
+
+open SJ.Generated SJ.GoSem SJ.GoIter SJ.GoObject SJ.Layout SJ.GoWrappers SJ.GoElems SJ.SourceLevelE SJ.Tables SJ.WalkLayout SJ.Lookup SJ.GoApi in
+/-- **… and the last step**: with only a NOP gap between the receiver and the closing brace at `hi`, `o.NextElement(dst)`
+    returns the empty name, `TypeNone` and `nil`; `*dst` is left alone, the receiver stands on the brace (every further call
+    answers the same), tape and buffers are untouched. -/
+theorem C12_source_nextElement_end (pj : PJ) (lim lo hi : Nat) (hms : OkMems pj .nil lo hi) (hlt : hi < lim)
+    (hend : ∃ c, word pj hi = some c ∧ tagOf c = tagObjectEnd) (hl : lim ≤ pj.tape.size) (hb : BufOK pj) (d0 : Iter)
+    (e0 : Env) (hv : viewAt e0 "o" = some { lim := lim, off := lo }) (hd : iterAt e0 "dst" = some d0)
+    (hS : e0.get "Strings.B" = some (.bytes pj.strings)) (hM : e0.get "Message" = some (.bytes pj.msg))
+    (F : Nat) (hF : lim - lo + 2 ≤ F) :
+    ∃ s, runFun goFuns goObject_NextElement F ⟨e0, pj.tape⟩ = .ret s [.bytes #[], .u8 typeNone, .bool false] ∧
+      s.tape = pj.tape ∧ viewAt s.env "o" = some { lim := lim, off := hi } ∧ iterAt s.env "dst" = some d0 ∧
+      s.env.get "Strings.B" = some (.bytes pj.strings) ∧ s.env.get "Message" = some (.bytes pj.msg) :=
+  SJ.SourceLevelE.C12_source_nextElement_end pj lim lo hi hms hlt hend hl hb d0 e0 hv hd hS hM F hF
+
+open SJ.Generated SJ.GoSem SJ.GoIter SJ.GoObject SJ.Layout SJ.GoWrappers SJ.GoElems SJ.SourceLevelE SJ.Tables SJ.WalkLayout SJ.Lookup SJ.GoApi in
+/-- **Walking an object with `NextElement` lists every member, source level** (the plain traversal `Parse` is built on).  On
+    a tape that holds the located object `.obj p e ms` (`TightTop`), calling the regenerated `o.NextElement(dst)` again and
+    again on the object's view — each call on the store the previous one left, from ANY store binding the receiver, a
+    complete `*dst` and the buffers — until it reports `TypeNone` (`srcElements`, with any bound `n` above the number of
+    members) yields exactly one `(name, type, *dst)` per member, in tape order, duplicates included: the key's bytes, the type
+    of the value's tag, and the cursor restricted to the value and standing on it; no call returns an error or panics.
+    Hypotheses kept: as `C12_source_parse` (`TightTop`, `BufOK`), budget `e - p + 1` per call. -/
+theorem C12_source_nextElement_walk (pj : PJ) (p e : Nat) (ms : LMems) (hok : Ok pj (.obj p e ms)) (ht : TightTop ms)
+    (hb : BufOK pj) (d0 : Iter) (e0 : Env) (hv : viewAt e0 "o" = some { lim := e, off := p + 1 })
+    (hd : iterAt e0 "dst" = some d0) (hS : e0.get "Strings.B" = some (.bytes pj.strings))
+    (hM : e0.get "Message" = some (.bytes pj.msg)) (F : Nat) (hF : e - p + 1 ≤ F) (n : Nat) (hn : memCount ms < n) :
+    srcElements F pj.tape n e0 =
+      some ((membersOf ms).map fun kv => (kv.1, tagToTypeSpec (tagOfL kv.2), some (elemIter pj kv.2))) :=
+  SJ.SourceLevelE.C12_source_nextElement_walk pj p e ms hok ht hb d0 e0 hv hd hS hM F hF n hn
 
 end SJ.Properties.C12
